@@ -559,7 +559,8 @@ func (p *Party) Withdraw(ctx context.Context, req channel.AdjudicatorReq, subSta
 	}
 	l.mu.Unlock()
 	if wait > 0 {
-		t := time.NewTimer(wait + time.Nanosecond)
+		// keyed jitter: timers derived from the same challenge deadline must not share an instant
+		t := time.NewTimer(wait + l.S.Delay("ledger:withdraw-wait:"+p.Name+":"+name, time.Nanosecond, 2*time.Microsecond))
 		select {
 		case <-t.C:
 		case <-ctx.Done():
@@ -703,7 +704,7 @@ func (t *SimTimeout) Wait(ctx context.Context) error {
 	if d <= 0 {
 		return nil
 	}
-	tm := time.NewTimer(d + time.Nanosecond)
+	tm := time.NewTimer(d + t.S.Delay("timeout-wait", time.Nanosecond, 2*time.Microsecond))
 	defer tm.Stop()
 	select {
 	case <-tm.C:
